@@ -685,6 +685,7 @@ func genFacts(p *pkgInfo) string {
 		leanStr(rf.LookupKey), leanStr(rf.CompileArg), leanStr(rf.InsertKey), leanStr(rf.TestKey), leanStr(rf.StoreArg),
 		leanBool(rf.LockPresent), leanBool(rf.UnlockDeferred), leanBool(rf.LoadAfterLock), leanBool(rf.OnlyFreshWritten), leanBool(rf.CopiesOld),
 		leanStr(rf.MustLookupKey), leanStr(rf.MustCompileArg))
+	fmt.Fprintf(&b, "/-- where NewSpecValidator takes the options object of its schema validators from -/\ndef specOptionsOrigin : String := %s\n\n", leanStr(specOptionsOrigin(p)))
 	fmt.Fprintf(&b, "/-- what compileRegexp returns, in source order, and the package-level variables of rexp.go -/\ndef rexpReturns : List String := %s\ndef rexpPkgVars : List String := %s\n\n", leanStrList(rexpReturns(p)), leanStrList(rexpPkgVars(p)))
 	b.WriteString("/-- every mention of a mutex-guarded package-level variable: (variable, function, site, inside a function that takes the lock) -/\n")
 	b.WriteString("def guardedAccess : List (String × String × String × Bool) := [\n")
@@ -1037,6 +1038,39 @@ func rexpFacts(p *pkgInfo) rexpFact {
 	})
 	rf.LoadAfterLock = lockPos != token.NoPos && loadPos != token.NoPos && lockPos < loadPos
 	return rf
+}
+
+// specOptionsOrigin: how NewSpecValidator obtains the options object it stores in the field schemaOptions
+// ("local new(T)" when it is a variable of the constructor initialised by new(T); otherwise the source text)
+func specOptionsOrigin(p *pkgInfo) string {
+	fd := p.funcs()["NewSpecValidator"]
+	if fd == nil || fd.Body == nil {
+		return "missing"
+	}
+	locals := map[string]string{}
+	origin := "not assigned"
+	ast.Inspect(fd.Body, func(n ast.Node) bool {
+		switch x := n.(type) {
+		case *ast.AssignStmt:
+			if x.Tok == token.DEFINE && len(x.Lhs) == 1 && len(x.Rhs) == 1 {
+				if id, ok := x.Lhs[0].(*ast.Ident); ok {
+					locals[id.Name] = p.src(x.Rhs[0])
+				}
+			}
+		case *ast.KeyValueExpr:
+			if k, ok := x.Key.(*ast.Ident); ok && k.Name == "schemaOptions" {
+				if id, ok := x.Value.(*ast.Ident); ok {
+					if init, isLocal := locals[id.Name]; isLocal {
+						origin = "local " + init
+						return true
+					}
+				}
+				origin = p.src(x.Value)
+			}
+		}
+		return true
+	})
+	return origin
 }
 
 // rexpReturns: the return statements of compileRegexp in source order; rexpPkgVars: the package-level variables of rexp.go
